@@ -10,7 +10,17 @@ Decided (structural clauses, nothing executed):
         (``self.view.update([flow])``).
   R47.3 the state restored by the failure handler is the state at entry of ``put``: either a local snapshot
         ``X = flow.get_state()`` restored with ``flow.set_state(X)``, or ``backup()``/``revert()`` with an unconditional backup.
-NOT decided: that set_state(get_state()) is the identity (C36/C40 territory); exceptions outside the modelled table.
+  R47.4 (E3, pyint) the restore point is a *snapshot*: ``HTTPFlow.get_state`` (with ``Flow.get_state``, ``Message.get_state``,
+        ``MessageData.get_state``, ``MultiDict.get_state``) is interpreted from its AST on an abstract flow for every combination of
+        request/response headers {empty, non-empty} x trailers {None, empty, non-empty} x response {present, absent}; the returned state
+        must not contain (at any depth) one of the live objects of the flow - in particular none of the four ``Headers`` objects the edit
+        loop mutates in place (``.clear()``/``.add()``, and the ``text``/``content`` setters).  A live object inside the snapshot is edited
+        together with the flow, so ``set_state(old_state)`` "restores" the rejected edit - clause "leaves the flow exactly as it was".
+        Truthiness of a Headers object is modelled as "has fields" (checked: no ``__bool__`` in the MRO and the interpreted ``__len__`` is 0
+        exactly for an object without fields).
+The edit document is ``self.json`` or a local alias of it bound before the loop (R47.1/R47.2 follow the alias).
+NOT decided: that set_state(get_state()) is the identity (C36/C40 territory); exceptions outside the modelled table; flows other than
+HTTPFlow.
 """
 
 from __future__ import annotations
@@ -30,16 +40,18 @@ from ._helpers_H import MayRaise
 PROP = "C47"
 REG = {
     "strength": "partial",
-    "technique": "exception-escape sets vs. reverting handlers (E5, property setters resolved through annotated locals) + must-precede path facts",
+    "technique": "exception-escape sets vs. reverting handlers (E5, property setters resolved through annotated locals) + must-precede path facts "
+    "+ AST interpretation of HTTPFlow.get_state on abstract flows (snapshot independence)",
     "claim": "every explicit raise and modelled implicit raiser of FlowHandler.put's edit loop (including the Request/Response property setters it "
     "drives) reaches a handler that restores the flow; the restore point is taken before the first mutation and is the state at entry; success "
-    "paths update the view.",
+    "paths update the view; the snapshot restored from contains none of the flow's live (in-place edited) objects for any headers/trailers shape.",
     "note": "Untrusted data: the decoded JSON body (any JSON type at every level). Codec libraries (zlib/brotli/zstd/codecs) are summarised as raising "
     "Exception subclasses only.",
 }
 
 APP = "mitmproxy/tools/web/app.py"
 FLOW = "mitmproxy/flow.py"
+HTTP = "mitmproxy/http.py"
 QUAL = "FlowHandler.put"
 
 RESTORE_CALLS = ("flow.revert", "flow.set_state")
@@ -66,7 +78,17 @@ def check(ctx):
     ctx.require(len(tries) == 1, "FlowHandler.put: expected exactly one top-level try around the edit loop")
     t = tries[0]
     loops = [s for s in t.body if isinstance(s, ast.For)]
-    ctx.require(len(loops) == 1 and len(t.body) == 1 and norm(loops[0].iter) == "self.json.items()",
+    # the edit document: self.json, or a local bound exactly once (before the try) to self.json
+    aliases = set()
+    for st in fn.body[: fn.body.index(t)]:
+        tgt = st.targets[0] if isinstance(st, ast.Assign) and len(st.targets) == 1 else st.target if isinstance(st, ast.AnnAssign) and st.value is not None else None
+        if isinstance(tgt, ast.Name) and norm(st.value) == "self.json":
+            stores = [n for n in walk_in_order(fn) if isinstance(n, ast.Name) and n.id == tgt.id and isinstance(n.ctx, (ast.Store, ast.Del))]
+            if len(stores) == 1:
+                aliases.add(tgt.id)
+    it = loops[0].iter if len(loops) == 1 else None
+    doc = it.func.value if isinstance(it, ast.Call) and isinstance(it.func, ast.Attribute) and it.func.attr == "items" and not it.args and not it.keywords else None
+    ctx.require(len(loops) == 1 and len(t.body) == 1 and doc is not None and (norm(doc) == "self.json" or (isinstance(doc, ast.Name) and doc.id in aliases)),
                 "FlowHandler.put: the edit loop over self.json.items() changed shape")
     loop = loops[0]
     ctx.require(isinstance(loop.target, ast.Tuple) and len(loop.target.elts) == 2, "edit loop target is not (key, value)")
@@ -79,7 +101,7 @@ def check(ctx):
     })
     ctx.trust("zlib/brotli/zstd compress and codecs.encode raise Exception subclasses only")
     mr = MayRaise(ctx, cfg)
-    env = {"self.json": "A", a: "A", b: "A"}
+    env = {"self.json": "A", a: "A", b: "A", **{n: "A" for n in aliases}}
     esc = mr.region(APP, QUAL, loop.body + loop.orelse, env)
     key = mr.key_of_region(APP, QUAL, env)
     ctx.require(mr.sites >= 30 and len(mr.functions) >= 15, f"escape analysis collapsed: {mr.sites} sites, {sorted(mr.functions)}")
@@ -140,7 +162,7 @@ def check(ctx):
         def keep(ev):
             if ev[0] == "call":
                 return ev[1] in (point, "self.view.update", "setattr") or ev[1].split(".")[-1] in ("clear", "add")
-            return ev[0] == "assign" and "." in ev[1] and ev[1].split(".")[0] in ("flow", "request", "response")
+            return ev[0] == "assign" and "." in ev[1] and (ev[1].split(".")[0] in ("flow", "request", "response") or ev[1].startswith("self.flow."))
 
         traces, eng = traces_of(fn, GenericSpec(keep=keep, unroll=1))
         ctx.paths += len(traces)
@@ -148,14 +170,127 @@ def check(ctx):
         is_mut = lambda ev: ev[0] == "assign" or (ev[0] == "call" and ev[1] not in (point, "self.view.update"))  # noqa: E731
         muts = sum(1 for tr, how, st in traces for ev in tr if is_mut(ev))
         ctx.require(muts >= 10, f"R47.2: mutation events vanished from the model ({muts})")
-        ok = all(precedes(tr, is_point, is_mut) for tr, how, st in traces)
-        ctx.check(ok, "R47.2", (APP, QUAL, fn), f"{point}() precedes the first mutation", "a path mutates the flow before the restore point is taken",
+        early = []  # mutation events that happen before the restore point exists on some path
+        for tr, how, st in traces:
+            for ev in tr:
+                if is_point(ev):
+                    break
+                if is_mut(ev) and ev not in early:
+                    early.append(ev)
+        ok = all(precedes(tr, is_point, is_mut) for tr, how, st in traces) and not early
+        ctx.check(ok, "R47.2", (APP, QUAL, fn), f"{point}() precedes the first mutation",
+                  "a path mutates the flow before the restore point is taken: " + ", ".join(sorted(f"{ev[0]} {ev[1]}" for ev in early)[:6])
+                  + f" happen(s) before {point}(), so the state restored on failure already contains that part of the rejected edit",
                   desc=f"{point}() precedes every mutation on {len(traces)} paths")
         done = [tr for tr, how, st in traces if how == "return"]
         ok = bool(done) and all(any(ev == ("call", "self.view.update") for ev in tr) for tr in done)
         ctx.check(ok, "R47.2", (APP, QUAL, fn), "self.view.update([flow]) on every completing path", "an applied edit is not announced to the view",
                   desc=f"view.update on all {len(done)} completing paths")
         ctx.expect_instances("R47.2", 2)
+
+    # ---- R47.4
+    ctx.rule("R47.4", "the state put() restores from contains none of the flow's live objects (a snapshot, not an alias)")
+    ctx.guard(_snapshot_rule, ctx)
+    ctx.expect_instances("R47.4", 1)
+
+
+def _snapshot_rule(ctx):
+    import copy as _copy
+    import itertools
+
+    from ..pyint import DictRec
+    from ..pyint import Interp
+    from ..pyint import Raised
+    from ..pyint import Rec
+
+    m = ctx.model
+    for qual in ("HTTPFlow.get_state", "Message.get_state", "MessageData.get_state"):
+        ctx.func(HTTP, qual)
+    ctx.func(FLOW, "Flow.get_state")
+    ctx.require(m.method(HTTP, "Headers", "__len__") is not None and m.method(HTTP, "Headers", "__bool__") is None,
+                "Headers truthiness is no longer given by __len__ (sized container without __bool__): the abstract Headers record of R47.4 does not apply")
+    for fields in ((), ((b"x-a", b"1"), (b"X-A", b"2"))):  # truthiness of the abstract record == the interpreted __len__ != 0
+        probe = Rec("Headers", _impl=(HTTP, "Headers"), fields=fields)
+        try:
+            n = Interp(m).method(probe, "__len__")
+        except Raised as r:
+            raise AnalysisError(f"R47.4: Headers.__len__ raises {r.name} on the abstract record")
+        ctx.require(isinstance(n, int) and bool(n) == bool(fields), f"R47.4: Headers.__len__ is {n!r} for fields {fields!r}: 'falsy iff no fields' does not hold")
+
+    class SizedRec(DictRec):
+        def __len__(self):
+            return len(self._items)
+
+    def headers(name, fields):
+        # a sized container: falsy when it has no fields (DictRec truthiness == has items)
+        return SizedRec("Headers", items={i: f for i, f in enumerate(fields)}, _impl=(HTTP, "Headers"), _name=name, fields=tuple(fields))
+
+    def public(rec):
+        return {k: v for k, v in rec.__dict__.items() if not k.startswith("_")}
+
+    H = {"empty": (), "non-empty": ((b"x-a", b"1"), (b"x-b", b"2"))}
+    T = {"None": None, **H}
+    cases = [(rh, rt, sh, st_) for rh, rt in itertools.product(H, T) for sh, st_ in itertools.product(H, T)] + [(rh, rt, None, None) for rh, rt in itertools.product(H, T)]
+    aliased: dict = {}
+    for rh, rt, sh, st_ in cases:
+        live = {}
+
+        def mk(owner, attr, kind):
+            if kind == "None":
+                return None
+            live[f"{owner}.{attr}"] = headers(f"{owner}.{attr}", H[kind])
+            return live[f"{owner}.{attr}"]
+
+        def message(cls, dcls, owner, hk, tk, **extra):
+            data = Rec(dcls, _impl=(HTTP, dcls), _name=f"{owner}.data", http_version=b"HTTP/1.1", headers=mk(owner, "headers", hk), content=b"body",
+                       trailers=mk(owner, "trailers", tk), timestamp_start=1.0, timestamp_end=2.0, **extra)
+            live[f"{owner}.data"] = data
+            live[owner] = Rec(cls, _impl=(HTTP, cls), _name=owner, data=data)
+            return live[owner]
+
+        req = message("Request", "RequestData", "request", rh, rt, host="example.org", port=80, method=b"GET", scheme=b"http", authority=b"", path=b"/")
+        resp = message("Response", "ResponseData", "response", sh, st_, status_code=200, reason=b"OK") if sh is not None else None
+
+        def conn(name):
+            return Rec("Connection", _name=name, get_state=lambda: {"id": name})
+
+        flow = Rec("HTTPFlow", _impl=(HTTP, "HTTPFlow"), _name="flow", type="http", id="flow-id", error=None, client_conn=conn("client_conn"), server_conn=conn("server_conn"),
+                   intercepted=False, is_replay=None, marked="", metadata={"k": ["v"]}, comment="", timestamp_created=0.5, _backup=None, request=req, response=resp, websocket=None)
+        it = Interp(m, trusted_modules={"copy": _copy}, externals={"vars": public})
+        try:
+            state = it.method(flow, "get_state")
+        except Raised as r:
+            raise AnalysisError(f"R47.4: HTTPFlow.get_state raises {r.name} on the abstract flow ({r.msg})")
+        ctx.cells += 1
+        ctx.require(isinstance(state, dict) and isinstance(state.get("request"), dict), "R47.4: HTTPFlow.get_state no longer returns a mapping with a 'request' mapping")
+
+        def walk(v, path, seen):
+            if isinstance(v, Rec):
+                yield path, v
+                return
+            if id(v) in seen:
+                return
+            if isinstance(v, dict):
+                seen.add(id(v))
+                for k, x in v.items():
+                    yield from walk(x, f"{path}[{k!r}]", seen)
+            elif isinstance(v, (list, tuple, set, frozenset)):
+                seen.add(id(v))
+                for i, x in enumerate(v):
+                    yield from walk(x, f"{path}[{i}]", seen)
+
+        for path, rec in walk(state, "state", set()):
+            what = next((n for n, o in live.items() if o is rec), rec._name)
+            case = f"request headers {rh} / trailers {rt}" + (f", response headers {sh} / trailers {st_}" if sh is not None else ", no response")
+            aliased.setdefault((path, what), case)
+    where = (HTTP, "MessageData.get_state", ctx.func(HTTP, "MessageData.get_state")) if aliased and all(p.startswith(("state['request']", "state['response']")) for p, _ in aliased) \
+        else (HTTP, "HTTPFlow.get_state", ctx.func(HTTP, "HTTPFlow.get_state"))
+    ctx.check(not aliased, "R47.4", where, "flow.get_state() shares no live object with the flow",
+              "the state FlowHandler.put restores from on failure contains live objects of the flow: "
+              + "; ".join(f"{p} is the live `{w}` object (e.g. {c})" for (p, w), c in sorted(aliased.items())[:4])
+              + " - the rejected edit mutates it in place (clear()/add()/setters), so flow.set_state(old_state) keeps the rejected values while everything else is rolled back",
+              desc=f"HTTPFlow.get_state interpreted on {len(cases)} header/trailer shapes: no live object in the snapshot", aliased=[f"{p} -> {w} ({c})" for (p, w), c in sorted(aliased.items())])
+    ctx.bounds.append(f"R47.4: {len(cases)} abstract HTTP flows (headers empty/non-empty x trailers None/empty/non-empty, with and without response)")
 
 
 H_OLD = "        except Exception:\n            flow.set_state(old_state)\n            raise\n        self.view.update([flow])"
@@ -171,5 +306,14 @@ MUTANTS = [
     Mutant("snapshot-is-the-old-backup", APP, "        old_state = flow.get_state()\n", "        old_state = flow._backup or flow.get_state()\n", "R47.3"),
     # R47.2
     Mutant("snapshot-after-a-mutation", APP, "        old_state = flow.get_state()\n", "        flow.marked = \"\"\n        old_state = flow.get_state()\n", "R47.2"),
+    # seed C47a: fields applied before the snapshot is taken (through an alias of the edit document)
+    Mutant("annotations-applied-before-snapshot", APP, "        old_state = flow.get_state()\n        flow.backup()\n        try:\n            for a, b in self.json.items():",
+           "        update: dict = self.json\n        if \"comment\" in update:\n            flow.comment = update.pop(\"comment\")\n        old_state = flow.get_state()\n        flow.backup()\n        try:\n            for a, b in update.items():", "R47.2"),
+    Mutant("headers-cleared-before-snapshot", APP, "        old_state = flow.get_state()\n", "        if \"headers\" in self.json.get(\"request\", {}):\n            self.flow.request.headers.clear()\n        old_state = flow.get_state()\n", "R47.2"),
     Mutant("view-not-updated", APP, "            raise\n        self.view.update([flow])\n\n\nclass DuplicateFlow", "            raise\n\n\nclass DuplicateFlow", "R47.2"),
+    # R47.4 - seed C47b and other ways of leaving a live object in the snapshot
+    Mutant("snapshot-keeps-empty-trailers-object", HTTP, "        if state[\"trailers\"] is not None:\n            state[\"trailers\"] = state[\"trailers\"].get_state()", "        if state[\"trailers\"]:\n            state[\"trailers\"] = state[\"trailers\"].get_state()", "R47.4"),
+    Mutant("snapshot-keeps-headers-object", HTTP, "        state[\"headers\"] = state[\"headers\"].get_state()\n        if state[\"trailers\"] is not None:", "        if state[\"trailers\"] is not None:", "R47.4"),
+    Mutant("snapshot-converts-only-non-empty-headers", HTTP, "        state[\"headers\"] = state[\"headers\"].get_state()\n        if state[\"trailers\"] is not None:", "        if len(state[\"headers\"]):\n            state[\"headers\"] = state[\"headers\"].get_state()\n        if state[\"trailers\"] is not None:", "R47.4"),
+    Mutant("flow-snapshot-holds-the-response-object", HTTP, "            \"response\": self.response.get_state() if self.response else None,", "            \"response\": self.response,", "R47.4"),
 ]
